@@ -240,11 +240,20 @@ def step (st : State) (w : List String) : State × String :=
     -- stripped DO=0 template is a lone SOA and fits): the cut's byte serve declines on size
     let cutFits := !(bflag (g "small") && bflag (g "do"))
     let s := wireLadder q l { sizeOK := cutFits }
+    -- a cut reply shows which proof template went out: 4 records signed, 1 (the SOA) stripped;
+    -- a signed proof truncated for a 512-octet buffer has empty sections
+    let qt := ((g "qt").bind String.toNat?).getD 1
+    let cdo := bflag (g "do")
+    let cutStr (full truncated : Bool) : String := s!"cut:{if truncated then 0 else if full then 4 else 1}"
     let m := match msgServe q false l with
       | .drop => "drop"
       | .noRecursion => "norec"
+      | .rung .cut => cutStr (cutMsgFull cdo qt) (cdo && bflag (g "small"))
       | .rung r => rungStr r
-    (st, s!"wire={outStr s.out} msg={m}")
+    let w := match s.out with
+      | .served .cut => cutStr (cutWireFull cdo qt) false
+      | o => outStr o
+    (st, s!"wire={w} msg={m}")
   | _ => (st, "bad-op")
 
 end Driver.C05
